@@ -117,6 +117,50 @@ def build_peptide(md, seed=0, variant="pep"):
     return md.Trajectory(xyz.astype(np.float32), top, **kw)
 
 
+def build_ions(md, seed=0, variant="ions_tri"):
+    """Ions and waters spread over a whole small cell: residues whose first atom is on the far side of the cell from
+    atom 0 (so the residue origin is reached through a periodic image), every origin within 0.42 x the smallest
+    cell width of atom 0 so that its minimum image is unique.  ions_tri: triclinic, ions_ortho: orthorhombic."""
+    from vlib.refmodels import mic
+    L, A = ((2.0, 2.2, 2.4), (75.0, 100.0, 115.0)) if variant == "ions_tri" else ((2.0, 2.2, 2.4), (90.0, 90.0, 90.0))
+    v = grids.lengths_angles_to_vectors(*L, *A)
+    wmin = grids.cell_widths(v).min()
+    f0 = np.array([0.1, 0.1, 0.1])
+    ax = np.arange(0.05, 1.0, 0.15)
+    cand = []
+    for f in np.array([[a, b, c] for a in ax for b in ax for c in ax]):
+        d = mic.min_image(((f - f0) @ v)[None], v, 3)[0][0]
+        if 0.3 < d < 0.42 * wmin:
+            cand.append(f)
+    # deterministic pick that favours the far side of every axis, then fills up
+    cand.sort(key=lambda f: (-int((f > 0.6).sum()), tuple(np.round(f, 3))))
+    pick = cand[:6] + cand[len(cand) // 2: len(cand) // 2 + 5] + cand[-4:]
+    names = ["NA"] + ["NA", "CL", "CL", "NA", "CL"] + ["HOH"] * (len(pick) - 5)
+    top = md.Topology()
+    ch = top.add_chain()
+    pos = []
+    k = 1 + 97 * seed
+    for rn, f in zip(names, [f0] + pick):
+        res = top.add_residue(rn, ch)
+        c = f @ v
+        if rn == "HOH":
+            o = top.add_atom("O", md.element.oxygen, res)
+            pos.append(c)
+            for hn in ("H1", "H2"):
+                u = np.array([grids.halton(k, b) for b in (2, 3, 5)]) - 0.5
+                k += 1
+                h = top.add_atom(hn, md.element.hydrogen, res)
+                top.add_bond(o, h)
+                pos.append(c + 0.0957 * u / np.linalg.norm(u))
+        else:
+            top.add_atom(rn, md.element.Element.getBySymbol("Na" if rn == "NA" else "Cl"), res)
+            pos.append(c)
+    x0 = np.array(pos)
+    n = len(x0)
+    xyz = np.array([x0, x0 + grids.jitter(n, 3, 0.02, seed + 3), x0 + grids.jitter(n, 3, 0.03, seed + 5)])
+    return md.Trajectory(xyz.astype(np.float32), top, unitcell_lengths=np.tile(L, (3, 1)), unitcell_angles=np.tile(A, (3, 1)))
+
+
 def load_fragment(md, repo, name, seed=0):
     """Fragments of files of the tree under test."""
     d = os.path.join(repo, "tests", "data")
@@ -175,6 +219,8 @@ STRUCTS = ["pep", "pep_tri", "pep_nocell", "pep_heavy", "pep_far", "frag_2EQQ", 
 def get(md, repo, name, seed=0):
     if name.startswith("pep"):
         return build_peptide(md, seed, name)
+    if name.startswith("ions"):
+        return build_ions(md, seed, name)
     return load_fragment(md, repo, name, seed)
 
 
